@@ -289,6 +289,8 @@ def has_undefined_constant(e) -> bool:
                 v = sem.pyeval(n, sem.Heap(), {})
                 if isinstance(v, float) and (v != v or v in (float('inf'), float('-inf'))):
                     return True
+            except sem.Unclaimed:
+                continue  # meaning not fixed by the documentation: not an evaluation error, hence no licence to raise
             except Undef:
                 return True
     return False
